@@ -31,10 +31,10 @@ CLAIMED = {
         technique="Coq proof (carry-over invariant of the chunked decoder over the UTF model, for every chunk size) with extracted-model vs implementation correspondence"),
     "C01": dict(
         category="proof",
-        text="PARTIAL. Proved (coq/Properties_C01.v 19 + Properties_C01jx.v, jx family): the loader model applied to what the writer model emitted returns the value - MsgPack at value level for every writer overload / integer target / float bit pattern / string and at document level for any typed value tree (T_C01_mp_tree), CSV for any table, separator and requested key list in memory and through the stream reader of every chunk size, encoded text streams for every encoding / BOM / chunk size / width (writer then reader = the text, outside the C13 detection classes), string width conversion, and the JSON/XML adapter round trip of the jx family. Decided on the real implementation on every run with the property as its own oracle: SaveObject then LoadObject into a fresh object through the public API for ~55 catalogue types (fundamentals at root/array/object level, four string widths, enums, nested classes with base class, std containers, optional, smart pointers, tuple, pair, chrono) x MsgPack/JSON/XML/CSV x memory/stream x 5 encodings x BOM x formatting x separators under ASan+UBSan; non-finite floats (JSON must throw); load-save-load on the library's own documents re-rendered by independent writers. Twelve defects found by this check were repaired (F07 F26 F27 F28 F29 F29w F42 F47 F48 F49 F51 + follow-ups); five are known findings (XML null/empty ambiguity F29n F53, XML CR F52, BOM-less JSON scalar root F50, CSV empty table F22).",
-        design_ref="DESIGN.md 4 (C01)",
-        note="partial: there is no Coq model of the generic load layer over JSON/XML/CSV for std containers and classes (C18 models container loading; RapidJSON and pugixml are third party), so for those the quantified statement rests on the end-to-end exploration, which samples values and configurations. The models the theorems speak about are tied to /repo by the correspondences of C06/C07/C09/C13/C11/C16/C08, not repeated here.",
-        technique="Coq proof (writer/reader model compositions) + end-to-end round-trip exploration of the implementation with the property as oracle"),
+        text="PARTIAL. Proved (42 obligations: coq/Properties_C01.v 19, Properties_C01mp.v 15, Properties_C01jx.v 8; all closed under the global context): MsgPack - T_C01_mp_load_save: for every typed value tree (scalars of every kind, strings, byte containers, vectors, classes with named members, any nesting) the typed LOAD model applied to the bytes the SAVE model emitted returns the value, under every policy setting; the request program the generic layer issues evaluates on the association-list spec to exactly the loaded tokens and is transported by T_C03_mp_refines to the scope model on the bytes (ends at the end of the document, close flag clear); loading ignores undeclared members and the member order; value level for every writer overload / integer target / float bit pattern. CSV - any table, separator and requested key list, memory and stream reader of every chunk size. Encoded text streams - writer then reader = the text for every encoding / BOM / chunk size / width (outside the C13 detection classes). JSON - T_C01_json_roundtrip_adapter: for every type (any nesting of vector, map, class) and well-typed value the adapter model returns the value or the save raises (only for non-finite doubles). Decided on the real implementation on every run with the property as its own oracle: SaveObject then LoadObject into a fresh object through the public API for ~55 catalogue types x MsgPack/JSON/XML/CSV x memory/stream x 5 encodings x BOM x formatting x separators under ASan+UBSan; non-finite floats (JSON must throw); load-save-load on the library's own documents re-rendered by independent writers; extracted MsgPack load model vs LoadObject on saved / re-encoded / perturbed documents. Defects found by this check and repaired: F07 F26 F27 F28 F29 F29w F42 F47 F48 F49 F51 (+ follow-ups); known findings: XML null/empty ambiguity F29n F53, XML CR F52, BOM-less JSON scalar root F50, CSV empty table F22.",
+        design_ref="DESIGN.md 0a (C01 as built), 4 (C01)",
+        note="partial: std::map targets, vector<bool>, fixed arrays, tuples, enums and chrono are not in the MsgPack load model; there is no Coq model of the generic load layer over JSON/XML/CSV beyond the jx adapter model (XML round trip refuted by J41 only; `_outside` not proved) and C18's container model; RapidJSON and pugixml are third party. For those the quantified statement rests on the end-to-end exploration, which samples values and configurations. The models are tied to /repo by the correspondences of C06/C07/C03/C09/C13/C11/C16/C08 and by the mpload correspondence run here.",
+        technique="Coq proof (typed load/save models composed through the scope refinement; writer/reader model compositions) with extracted-model vs implementation correspondence + end-to-end round-trip exploration with the property as oracle"),
     "C03": dict(
         category="proof",
         text="PARTIAL (MsgPack only). Coq theorems T_C03_* (coq/Properties_C03.v, 28, closed under the global context) over a model of CMsgPackReadObjectScope / ArrayScope / BinaryScope (FindValueByKey with its cursor and wrap-around, ReadKey for every key format, CVariableKey equality, ResetKey, the guarded destructors with their tail skip, the close-failure flag reported by Finalize): for every well-formed object document, any trailing data and EVERY error-free history of requests (any order, repeats, absent keys, unrequested members, nested objects / arrays / byte arrays left partly read) the answers are those of the association list the reference decoder assigns to the document and the reader ends exactly behind the object (T_C03_mp_refines, full strength since the repairs of F14 and F17); the cursor invariant is kept by every request; an unsuccessful full cycle returns to its start; the destructors are total on any input and a failed close is reported as ParsingError by Finalize; array scopes count exactly the elements consumed (T_C05_array_scope_counts*). Tied to /repo by correspondence of the extracted model with the real scopes over the string reader, the stream reader and MsgPackReadRootScope on generated histories (documents from an independent encoder, all key kinds and widths, ill-formed documents for the error paths).",
@@ -101,6 +101,18 @@ CLAIMED = {
         design_ref="DESIGN.md 4 (C12)",
         note="trusted: as C11. Four genuine defects (F01-F04) were found by this check and repaired by fix: commits e8e3ba7 1981b2e 48ef24b; the model is the repaired behaviour.",
         technique="Coq proof (characterisation of the transcoding loop by induction on fuel) with extracted-model vs implementation correspondence"),
+    "C19": dict(
+        category="proof",
+        text="PARTIAL (data-race freedom under real interleavings is runtime behaviour and is observed, not proved). Proved (coq/Properties_C19.v, 11, closed under the global context): every fair interleaving of per-thread operation lists whose operations do not write the shared store gives every thread the results and private state of its sequential run (T_C19_interleaving_eq_sequential, T_C19_schedule_independent, T_C19_steps_commute) and the hypothesis is necessary (T_C19_writer_breaks_it). The tie to the code is a TRANSLATOR: on every run tools/inventory.py rebuilds coq/InvGenerated.v from the clang JSON AST of all public headers and every src/**/*.cpp and the kernel re-checks that every object with static storage duration is const with thread-safe initialisation, or written only inside EnumRegistry<T>::Register, or never written by the library (T_C19_statics_benign over 97 statics, T_C19_inventory_complete) and that no non-reentrant C function is called. Observed on every run: ThreadSanitizer runs of 2/4/8 threads x seeded random mixes of 18 operation kinds, each compared with a sequential golden run. A new mutable static breaks the theorem; the check then searches for a TSan report or result mismatch as the failing schedule.",
+        design_ref="DESIGN.md 4 (C19)",
+        note="no executable model of the C++ memory model: the link between `reader` in the theorem and the library's operations is the syntactic inventory (write-site classification is heuristic, conservative in dependent contexts); third-party statics (RapidJSON, pugixml, libstdc++) are covered by the TSan runs only.",
+        technique="Coq proof (interleaving = sequential for reader-only operations) over an inventory regenerated from the source by a clang-AST translator + ThreadSanitizer exploration"),
+    "C20": dict(
+        category="proof",
+        text="PARTIAL. Proved (coq/Properties_C20.v, 21, closed under the global context): in the exception/scope semantics of C++ (destructors innermost first; an exception leaving an implicitly-noexcept destructor = std::terminate) an exception thrown by any action at any nesting depth reaches the caller as that exception and the process never terminates, provided no destructor on the way can throw (T_C20_propagation, T_C20_never_terminate); for the MsgPack map load and the CSV save this holds at full strength for every input since F17 and F18 were repaired (T_C20_msgpack_never_terminates, T_C20_msgpack_propagates, T_C20_csv_never_terminates, T_C20_csv_width_error_surfaces), the unguarded old destructors are shown to violate it. The translator (clang AST, regenerated every run) pins the set of destructors and noexcept functions whose bodies call possibly-throwing code (T_C20_throwing_dtors, T_C20_noexcept_callers), so a destructor that starts calling throwing code breaks an obligation before a failing input is known. Observed, exhaustively in the fault position: allocation failure at every operator new, stream failure at every byte, truncation at every length for 35 scenarios in all four archives under ASan+LSan in child processes; any TERMINATE / HANG / LEAK / CRASH is a violation. Defects F17 F18 I37 I38 I39 (+ the silent failing-ostream save) found here were repaired.",
+        design_ref="DESIGN.md 4 (C20)",
+        note="the heap is not modelled (leak freedom and allocation failure are observations over the scenario catalogue); only two scope models (MsgPack map load on the memory reader, CSV string writer) are tied by correspondence; callees declared outside the library are conservatively treated as possibly throwing.",
+        technique="Coq proof (exception propagation through scopes; scope models) over a destructor/noexcept inventory regenerated from the source by a clang-AST translator + exhaustive fault-position enumeration under sanitizers"),
 }
 
 NOT_YET = "not yet built (stage order in DESIGN.md section 6); will be claimed once its model, theorems and correspondence exist"
